@@ -358,68 +358,85 @@ theorem gc_ptr_facts (p : Nat) (hp : p = 4 ∨ p = 8) :
   rcases hp with rfl | rfl <;> decide
 
 mutual
-theorem abi_inv (p : Nat) (hp : p = 4 ∨ p = 8) (ba : Basic → Nat) (hba : abiOKG (gcTarget p) ba = true) :
+theorem abi_inv (p : Nat) (hp : p = 4 ∨ p = 8) (fw : Nat) (ba : Basic → Nat) (hba : abiOKG (gcTarget p) ba = true) :
     ∀ r, padFree (gcTarget p) (toRaw r) = true →
-    abiSize (gcTarget p) (toRaw r) = (llSA (gcTarget p) (toRaw r)).1 ∧
+    abiSizeG (gcTarget p) fw (toRaw r) = (llSA (gcTarget p) (toRaw r)).1 ∧
     abiAlignG (gcTarget p) ba (toRaw r) = (llSA (gcTarget p) (toRaw r)).2
   | .basic b, _ => by
-    simp only [toRaw, abiSize, abiAlignG, llSA]
+    simp only [toRaw, abiSizeG, abiAlignG, llSA]
     exact ⟨abi_basic_size p hp b, abiOKG_spec hba b⟩
   | .pointer _, _ => by
     have f := gc_ptr_facts p hp
-    simp only [toRaw, abiSize, abiAlignG, llSA]; exact ⟨f.1, f.2.1⟩
+    simp only [toRaw, abiSizeG, abiAlignG, llSA]; exact ⟨f.1, f.2.1⟩
   | .map _ _, _ => by
     have f := gc_ptr_facts p hp
-    simp only [toRaw, abiSize, abiAlignG, llSA]; exact ⟨f.1, f.2.1⟩
+    simp only [toRaw, abiSizeG, abiAlignG, llSA]; exact ⟨f.1, f.2.1⟩
   | .chan _, _ => by
     have f := gc_ptr_facts p hp
-    simp only [toRaw, abiSize, abiAlignG, llSA]; exact ⟨f.1, f.2.1⟩
+    simp only [toRaw, abiSizeG, abiAlignG, llSA]; exact ⟨f.1, f.2.1⟩
   | .slice _, _ => by
     have f := gc_ptr_facts p hp
-    simp only [toRaw, abiSize, abiAlignG, llSA]; exact ⟨f.2.2.1, f.2.2.2.1⟩
+    simp only [toRaw, abiSizeG, abiAlignG, llSA]; exact ⟨f.2.2.1, f.2.2.2.1⟩
   | .iface _, _ => by
     have f := gc_ptr_facts p hp
-    simp only [toRaw, abiSize, abiAlignG, llSA]; exact ⟨f.2.2.2.2.1, f.2.2.2.2.2.1⟩
+    simp only [toRaw, abiSizeG, abiAlignG, llSA]; exact ⟨f.2.2.2.2.1, f.2.2.2.2.2.1⟩
   | .func, _ => by
     have f := gc_ptr_facts p hp
-    simp only [toRaw, abiSize, abiAlignG, llSA]; exact ⟨f.2.2.2.2.2.2.1, f.2.2.2.2.2.2.2⟩
+    simp only [toRaw, abiSizeG, abiAlignG, llSA]; exact ⟨f.2.2.2.2.2.2.1, f.2.2.2.2.2.2.2⟩
   | .closure, _ => by
     have f := gc_ptr_facts p hp
-    simp only [toRaw, abiSize, abiAlignG, llSA]; exact ⟨f.2.2.2.2.2.2.1, f.2.2.2.2.2.2.2⟩
+    simp only [toRaw, abiSizeG, abiAlignG, llSA]; exact ⟨f.2.2.2.2.2.2.1, f.2.2.2.2.2.2.2⟩
   | .named t, h => by
-    have ih := abi_inv p hp ba hba t (by simpa [padFree, toRaw] using h)
-    simpa [toRaw, abiSize, abiAlignG, llSA] using ih
+    have ih := abi_inv p hp fw ba hba t (by simpa [padFree, toRaw] using h)
+    simpa [toRaw, abiSizeG, abiAlignG, llSA] using ih
   | .array n e, h => by
-    have ih := abi_inv p hp ba hba e (by simpa [padFree, toRaw] using h)
-    simp only [toRaw, abiSize, abiAlignG, llSA, ih.1, ih.2, and_self]
+    have ih := abi_inv p hp fw ba hba e (by simpa [padFree, toRaw] using h)
+    simp only [toRaw, abiSizeG, abiAlignG, llSA, ih.1, ih.2, and_self]
   | .struct fs, h => by
     have h' : padFrees (gcTarget p) (toRaws fs) = true ∧ tailOK (stdSAs (gcTarget p) (toRaws fs)) = true := by
       simpa [padFree, toRaw] using h
     constructor
     · have := goSizeof_eq p hp (toRaw (.struct fs)) h
       rw [toRaw_idem] at this
-      simpa [toRaw, abiSize] using this
-    · have := abi_invF p hp ba hba fs h'.1
+      simpa [toRaw, abiSizeG] using this
+    · have := abi_invF p hp fw ba hba fs h'.1
       simpa [toRaw, abiAlignG, llSA, llStruct] using this
-theorem abi_invF (p : Nat) (hp : p = 4 ∨ p = 8) (ba : Basic → Nat) (hba : abiOKG (gcTarget p) ba = true) :
+theorem abi_invF (p : Nat) (hp : p = 4 ∨ p = 8) (fw : Nat) (ba : Basic → Nat) (hba : abiOKG (gcTarget p) ba = true) :
     ∀ fs, padFrees (gcTarget p) (toRaws fs) = true →
     abiAlignsG (gcTarget p) ba (toRaws fs) = maxAlignOf (llSAs (gcTarget p) (toRaws fs))
   | .nil, _ => by simp [toRaws, abiAlignsG, llSAs, maxAlignOf]
   | .cons t fs, h => by
     have h' : padFree (gcTarget p) (toRaw t) = true ∧ padFrees (gcTarget p) (toRaws fs) = true := by
       simpa [padFrees, toRaws] using h
-    have it := abi_inv p hp ba hba t h'.1
-    have ifs := abi_invF p hp ba hba fs h'.2
+    have it := abi_inv p hp fw ba hba t h'.1
+    have ifs := abi_invF p hp fw ba hba fs h'.2
     simp only [toRaws, abiAlignsG, llSAs, maxAlignOf, it.2, ifs]
 end
 
 /-- (c) = (b) for any descriptor alignment table that agrees with the data layout on the basic kinds -/
-theorem abi_eq_ll (p : Nat) (hp : p = 4 ∨ p = 8) (ba : Basic → Nat) (hba : abiOKG (gcTarget p) ba = true)
+theorem abi_eq_ll (p : Nat) (hp : p = 4 ∨ p = 8) (fw : Nat) (ba : Basic → Nat) (hba : abiOKG (gcTarget p) ba = true)
     (t : GoType) (h : padFree (gcTarget p) (toRaw t) = true) :
-    (⟨abiSize (gcTarget p) (toRaw t), abiAlignG (gcTarget p) ba (toRaw t), abiOffsets (gcTarget p) t⟩ : Layout)
+    (⟨abiSizeG (gcTarget p) fw (toRaw t), abiAlignG (gcTarget p) ba (toRaw t), abiOffsets (gcTarget p) t⟩ : Layout)
       = llvmLayout (gcTarget p) t := by
   unfold llvmLayout abiOffsets
-  rw [(abi_inv p hp ba hba t h).1, (abi_inv p hp ba hba t h).2]
+  rw [(abi_inv p hp fw ba hba t h).1, (abi_inv p hp fw ba hba t h).2]
+
+/-- the referenced element descriptor: right size iff a function type is recorded with two words -/
+theorem elemDesc_eq (p : Nat) (hp : p = 4 ∨ p = 8) (fw : Nat) (t : GoType) (h : padFree (gcTarget p) (toRaw t) = true)
+    (hf : fw = 2 ∨ toRaw t ≠ .closure) :
+    elemDescSize (gcTarget p) fw t = (llvmLayout (gcTarget p) t).size := by
+  unfold elemDescSize llvmLayout
+  by_cases hc : toRaw t = .closure
+  · rcases hf with rfl | hf
+    · rw [hc]
+      have f := gc_ptr_facts p hp
+      simp only [publicType, abiSizeG, llSA]
+      exact f.2.2.2.2.1
+    · exact absurd hc hf
+  · have hpub : publicType (toRaw t) = toRaw t := by
+      cases hr : toRaw t <;> simp [publicType] <;> exact absurd hr hc
+    rw [hpub]
+    exact (abi_inv p hp fw (abiBasicAlignFixed (gcTarget p)) (by rcases hp with rfl | rfl <;> decide) t h).1
 
 /-- on a well-formed target a struct whose own zero-size tail is padded by gc is larger at compile time than in LLVM -/
 theorem zero_tail_key (fs : Fields) (p : Nat) (hp : p = 4 ∨ p = 8) (hf : padFrees (gcTarget p) fs = true)
